@@ -132,8 +132,13 @@ def evaluate(case, seed):
     out = {}
     with rec.on():
         try:
-            v = lens.hyper_param_likelihood(case["ddt"], case["dd"], case["dlum"], beta_dsp=case["beta"], **case["hyper"])
-            out["value"] = float(np.squeeze(v))
+            v = np.squeeze(lens.hyper_param_likelihood(case["ddt"], case["dd"], case["dlum"], beta_dsp=case["beta"], **case["hyper"]))
+            if np.iscomplexobj(v):
+                # below the floor only (negative lambda handed to the DSPL data likelihood, an external function of the
+                # routed arguments: (negative)**fraction is complex in Python); the value itself is not compared there
+                out["complex"] = True
+                v = v.real
+            out["value"] = float(v)
         except Exception as e:  # noqa
             out["err"] = err_enum(e)
     return out, rec, lens
